@@ -150,6 +150,8 @@ ChooseBranch(brs, v, names, o) ==
 RECURSIVE NormM(_, _, _, _, _)
 NormN(t, v, names, o, named) == NormM(t, v, names, o, [named |-> named, json |-> FALSE, override |-> FALSE])
 \* return_named_type together with return_named_type_override: the pair only where the union has more than one named type
+\* return_record_name: pairs for record branches only
+NormR(t, v, names, o) == NormM(t, v, names, o, [named |-> TRUE, json |-> FALSE, override |-> FALSE, records |-> TRUE])
 NormNO(t, v, names, o) == NormM(t, v, names, o, [named |-> TRUE, json |-> FALSE, override |-> TRUE])
 Norm(t, v, names, o) == NormM(t, v, names, o, [named |-> FALSE, json |-> FALSE, override |-> FALSE])
 NormJ(t, v, names, o) == NormM(t, v, names, o, [named |-> FALSE, json |-> TRUE, override |-> FALSE])
@@ -185,5 +187,6 @@ NormM(t0, v0, names, o, named) ==
                         IF c.st # "ok" THEN bad
                         ELSE LET r == NormM(t.br[c.i], c.v, names, o, named)
                                  b == Deref(t.br[c.i], names)
-                             IN IF r.ok /\ named.named /\ IsNamedKind(b.k) /\ ~(named.override /\ NamedBranches(t, names) = 1) THEN [ok |-> TRUE, v |-> VTuple(<< VStr(b.name), r.v >>)] ELSE r
+                                 wanted == IF "records" \in DOMAIN named /\ named.records THEN b.k = "record" ELSE IsNamedKind(b.k)
+                             IN IF r.ok /\ named.named /\ wanted /\ ~(named.override /\ NamedBranches(t, names) = 1) THEN [ok |-> TRUE, v |-> VTuple(<< VStr(b.name), r.v >>)] ELSE r
 =============================================================================
